@@ -459,4 +459,20 @@ def decodeRecord (bs : Bytes) : Option (Rec × Bytes) :=
             b9.drop (total - 80))
   | _ => none
 
+/-- the data area of a block: the record images one after the other -/
+def encodeRecs (P : Params) (rs : List Rec) : Bytes := rs.flatMap (encodeRecord P)
+
+/-- the reader's walk over a data area at byte level (`next_ref` on one block): decode the record at the current
+    offset, advance by the bytes it occupies, until the offset reaches `used_bytes`; `fuel` bounds the number of records -/
+def decodeRecs : Nat → Nat → Nat → Bytes → Option (List Rec)
+  | 0, used, off, _ => if off ≥ used then some [] else none
+  | fuel + 1, used, off, bs =>
+    if off ≥ used then some []
+    else match decodeRecord bs with
+      | none => none
+      | some (r, rest) =>
+        match decodeRecs fuel used (off + (bs.length - rest.length)) rest with
+        | some l => some (r :: l)
+        | none => none
+
 end AxVerif.Wal
